@@ -24,7 +24,7 @@ def worlds():
     from mc.worlds import registry
 
     d = {k: v for k, v in registry.WORLDS.items() if not k.endswith("(closed)")}  # a frozen-bar variant of a path world below
-    d.update(registry.PATH_WORLDS)
+    d.update({k: v for k, v in registry.PATH_WORLDS.items() if k != "deribit(many)+uni"})  # same markets as deribit+uni, built for C05's bar-index question
     return d
 
 
@@ -124,7 +124,7 @@ def scripts_for(world, thorough):
         c2, outs = kit.replay_history(lambda: _fresh0(world), world.alphabet, root)
         ops = world.alphabet(c2)
         labels = [o.label for o in ops if not o.deviation]
-        if world.name == "deribit+uni" and not thorough:
+        if world.name in ("deribit+uni", "deribit(many)+uni") and not thorough:
             # 121 bars per run: the pool's own operations are explored in the pool worlds, here two of them suffice beside the option market's
             labels = [l for l in labels if l.startswith("deribit.") or l in ("uni.add[in,part,part]", "uni.sell[part]")]
         dev = [o.label for o in ops if o.deviation and any(t in o.label for t in ("all", "None", "over", "lp"))][:: 3]
@@ -177,7 +177,7 @@ def main(run: Run):
         world = mk()
         sc = scripts_for(world, run.thorough)
         per_world[wname] = len(sc)
-        size = 10 if wname == "deribit+uni" else 40
+        size = 10 if "deribit" in wname and "+uni" in wname else 40
         for ch in chunks(sc, max(1, len(sc) // size)):
             jobs.append((run.seed, wname, ch))
     jobs = run.rotate(jobs)
